@@ -190,6 +190,9 @@ class Program:
                 from .canon import canonicalise
 
                 n0 = len(self.norm_report)
+                from . import restructure
+
+                restructure.undo(trees, self.unknown_functions, self.norm_report)
                 if self.unknown_functions:
                     from . import ctxinline
 
